@@ -152,6 +152,8 @@ ROUTES = {
     "dill": (lambda m: dill.loads(dill.dumps(m)), True),
     "database": (db_rt, True),
     "database-x2": (lambda m: db_rt(db_rt(m)), True),
+    # repeated round trips across forms: what was loaded from the database is written to its dictionary form
+    "database-then-dict": (lambda m: dict_rt(db_rt(m)), False),
 }
 
 
@@ -179,7 +181,8 @@ def classify(comp, model, route, what):
         isinstance(m, af.Model) and m.prior_count == 0 and any(k not in m.constructor_argument_names for k, _ in X.public_items(m))
         for m in c03.reachable_models(model)
     )
-    if route.startswith("dict") and has_extra_on_fixed:
+    dict_leg = route.startswith("dict") or route.endswith("-dict")
+    if dict_leg and has_extra_on_fixed:
         return "C08-instance-extra-attr"
     from autofit.mapper.prior.tuple_prior import TuplePrior
 
@@ -187,7 +190,7 @@ def classify(comp, model, route, what):
         isinstance(m, af.Model) and m.prior_count == 0 and any(isinstance(v, TuplePrior) for _, v in X.public_items(m))
         for m in c03.reachable_models(model)
     )
-    if route.startswith("dict") and has_tuple_on_fixed and what in ("instance", "raises", "unusable"):
+    if dict_leg and has_tuple_on_fixed and what in ("instance", "raises", "unusable"):
         return "C08-instance-tuple"
     if route.startswith("database") and X.all_priors(comp) is not None and c01.features(comp)["kinds"] & {"array"}:
         return "C08-database-array"
@@ -551,6 +554,31 @@ def pickle_clause(ctx, model, pn, c):
         ctx.disagree("C08.pickle.dict", c, first_diff(real, canon_answer(ans["dict"])), "dictionary of the unpickled model differs")
 
 
+def dbcounter_clause(ctx, r, c):
+    """the counter of appended items of every collection rebuilt from database rows vs Lean `nextPosition` of its
+    member names (the rows do not store it)"""
+    seen = 0
+
+    def visit(m):
+        nonlocal seen
+        if isinstance(m, af.Collection) and seen < 4:
+            seen += 1
+            names = [k for k, _ in _dict_items(m)]
+            ans = ctx.lean.ask({"p": "C08", "q": "dbcounter", "names": names})
+            if "driver_error" in ans:
+                ctx.disagree("driver", c, None, ans)
+                return
+            ctx.hit("dictform:dbcounter")
+            got = getattr(m, "item_number", "missing")
+            if got != ans["item_number"] or isinstance(got, bool) or not isinstance(got, int):
+                ctx.disagree("C08.database.item_number", c, got, ans["item_number"])
+        for _, v in _dict_items(m):
+            if isinstance(v, (af.Collection, af.Model)):
+                visit(v)
+
+    visit(r)
+
+
 def one_case(ctx, prog, label="gen"):
     rng = ctx.rng
     try:
@@ -579,11 +607,13 @@ def one_case(ctx, prog, label="gen"):
     has_asserts = any(s["op"] == "assert" for s in prog)
     nontrivial = n_ids >= 2 and (feats["places"] > n_ids or bool(feats["kinds"] & {"tuple", "arith", "modif", "array"}) or has_asserts)
     case = {"program": prog, "label": label}
-    if model.prior_count > 0 and not holds_model_instance(model):
+    if model.prior_count > 0 and not holds_model_instance(model) and (ctx.tier == "quick" or label != "gen" or rng.random() < 0.6):
         dictform_clauses(ctx, model, case)
     for route, (fn, keeps_order) in ROUTES.items():
         if route.startswith("dict") and model.prior_count == 0:
             continue  # a model without free parameters is written as a plain instance
+        if route == "database-then-dict" and (model.prior_count == 0 or (ctx.tier == "quick" and label == "gen" and rng.random() < 0.5)):
+            continue
         if ctx.tier == "quick" and route in ("dict-x3", "database-x2", "dill") and rng.random() < 0.6:
             continue
         ctx.case({"comp": comp, "route": route}, nontrivial=nontrivial,
@@ -593,13 +623,17 @@ def one_case(ctx, prog, label="gen"):
         try:
             r = fn(model)
         except Exception as e:
-            ctx.fail(classify(comp, model, route, "raises"), f"{route} round trip raised {type(e).__name__}", c, str(e)[:200])
+            lost_counter = isinstance(e, AttributeError) and "item_number" in str(e)
+            ctx.fail("C08-db-collection-item-number" if lost_counter else classify(comp, model, route, "raises"),
+                     f"{route} round trip raised {type(e).__name__}", c, str(e)[:200])
             continue
         try:
             new_shape = shape_of(r)
         except Exception as e:
             ctx.fail(classify(comp, model, route, "unusable"), f"model reloaded through {route} cannot be queried", c, f"{type(e).__name__}: {e}"[:200])
             continue
+        if route == "database":
+            dbcounter_clause(ctx, r, c)
         if new_shape["id_consts"] != base_shape["id_consts"]:
             ctx.fail("C08-database-id-const" if route.startswith("database") else f"C08-{route}-id-const",
                      f"{route} round trip turns the id of a component into a float attribute (listed among the fixed values)", c, new_shape["id_consts"][:3])
